@@ -19,13 +19,17 @@ import vlib
 from vlib import log
 from checks import pipe
 
-PLAN = ("for each selected UNI number: one generic magnetic crystal per (moment kind, action) combination "
-        "(quick: one combination chosen by (uni+seed) mod 4; thorough: all four of non-collinear/collinear x axial/polar), "
-        "then: own conventional cell; re-described cells (random unimodular re-basing with entries up to 6, origin shift, "
-        "rigid rotation with the moments rotated along, atom permutation, added lattice vectors); all moments reversed; "
-        "all moments zero; supercells by random HNFs of index 2..3 (thorough 2..4); symprec 1e-4, mag_symprec in "
-        "{None, 1e-4, 3e-4, 1e-3}.  quick: UNI numbers with (uni+seed) mod 3 == 0 plus the first entry of every "
-        "construct type x centering class; thorough: all 1651")
+PLAN = ("for each selected UNI number one generic magnetic crystal per (moment kind, action) combination (non-collinear/collinear x "
+        "axial/polar): one magnetic species with a generic moment on a generic orbit of the generating magnetic group, plus one "
+        "non-magnetic species when the group is small; variants: own conventional cell; re-described cell (random unimodular "
+        "re-basing with entries up to 6, origin shift, rigid rotation with the moments rotated along, atom permutation, added "
+        "lattice vectors); all moments reversed; all moments zero; supercell by a random HNF of index 2..3 (thorough 2..4); "
+        "symprec 1e-4, mag_symprec in {None, 1e-4, 3e-4, 1e-3}.  "
+        "quick: UNI numbers with (uni+seed) mod 3 == 0 plus the first entry of every construct type x centering class, one "
+        "combination chosen by (uni+seed) mod 4, always a re-described case, the other variants for a seed-dependent 1/3..1/6 "
+        "of the numbers; groups with >= 192 conventional operations: a single re-described case for one number in four.  "
+        "thorough: all 1651 numbers, all four combinations, each with a re-described case and one of own / reversed / zero / "
+        "supercell (so every number sees every variant); groups with >= 192 operations: one combination, own + re-described")
 
 
 def run_cases(tier, seed, key):
